@@ -227,19 +227,14 @@ def check_rt(run, thorough):
     inp = os.path.join(run.scratch, "walks.json")
     write_json(inp, jobs)
     race = os.path.join(run.scratch, "race")
-    rc, out = run.go_driver("", "./store/", OVERLAY, "^TestVerifStore(Replay|Race)$",
-                            env={"VERIF_IN": inp, "VERIF_RACE_OUT": race + "_mgr.ndjson", "VERIF_RACE_MODE": "mgr",
-                                 "VERIF_RACE_TRACES": "200" if thorough else "30"}, timeout=5400)
+    # the sequential replay does not need the race detector (4x slower under tsan); the racing runs do
+    run.go_driver("", "./store/", OVERLAY, "^TestVerifStoreReplay$", env={"VERIF_IN": inp}, timeout=5400, race=False)
+    rc, out = run.go_driver("", "./store/", OVERLAY, "^TestVerifStoreRace$",
+                            env={"VERIF_RACE_OUT": race, "VERIF_RACE_TRACES": "200" if thorough else "30"}, timeout=5400)
     if rc != 0:
         # racing lookups are part of the property's quantifier: a race report on the state they share is reported
-        run.violation("datarace:mgr:" + race_signature(out), "data race reported under racing lookups on one image (manager calls): " +
-                      race_signature(out), {"log": out[out.find("WARNING: DATA RACE"):][:6000]})
-    rc, out = run.go_driver("", "./store/", OVERLAY, "^TestVerifStoreRace$",
-                            env={"VERIF_RACE_OUT": race + "_fuse.ndjson", "VERIF_RACE_MODE": "fuse",
-                                 "VERIF_RACE_TRACES": "200" if thorough else "30"}, timeout=5400)
-    if rc != 0:
-        run.violation("datarace:fuse:" + race_signature(out), "data race reported under racing lookups on one image (fuse handlers): " +
-                      race_signature(out), {"log": out[out.find("WARNING: DATA RACE"):][:6000]})
+        violation(run, "datarace:" + race_signature(out), "data race reported under racing lookups on one image: " + race_signature(out),
+                  {"log": out[out.find("WARNING: DATA RACE"):][:6000]})
     vs = [(lambda j=j: validate(run, j["out"], j["img"], j["mode"], "replay")) for j in jobs]
     vs += [lambda: validate(run, race + "_mgr.ndjson", "Img2x2", "mgr", "race"),
            lambda: validate(run, race + "_fuse.ndjson", "Img2x2", "fuse", "race")]
